@@ -1,0 +1,86 @@
+//go:build verif
+
+package proxy
+
+// Verification hooks for property C13 (login plugin messages). Add-only, no behaviour
+// change: thin exported wrappers around the unexported login-phase connection and the
+// Modern Forge login relay so that a monitor outside this package can drive them over a
+// recording MinecraftConn.
+
+import (
+	"github.com/go-logr/logr"
+	"github.com/robinbraemer/event"
+
+	"go.minekube.com/gate/pkg/edition/java/config"
+	"go.minekube.com/gate/pkg/edition/java/netmc"
+	"go.minekube.com/gate/pkg/edition/java/proto/packet"
+	"go.minekube.com/gate/pkg/gate/proto"
+)
+
+// VerifC13LoginInbound wraps a loginInboundConn built by the real constructor.
+type VerifC13LoginInbound struct{ l *loginInboundConn }
+
+// VerifC13NewLoginInbound builds a loginInboundConn over conn exactly as
+// handshakeSessionHandler.handleLogin does (newInitialInbound + newLoginInboundConn).
+func VerifC13NewLoginInbound(conn netmc.MinecraftConn) *VerifC13LoginInbound {
+	return &VerifC13LoginInbound{l: newLoginInboundConn(
+		newInitialInbound(conn, conn.LocalAddr(), packet.LoginHandshakeIntent))}
+}
+
+// Conn is the public face handed to PreLoginEvent subscribers.
+func (v *VerifC13LoginInbound) Conn() LoginPhaseConnection { return v.l }
+
+// LoginEventFired calls loginInboundConn.loginEventFired.
+func (v *VerifC13LoginInbound) LoginEventFired(onAllMessagesHandled func() error) error {
+	return v.l.loginEventFired(onAllMessagesHandled)
+}
+
+// HandleLoginPluginResponse calls loginInboundConn.handleLoginPluginResponse.
+func (v *VerifC13LoginInbound) HandleLoginPluginResponse(res *packet.LoginPluginResponse) error {
+	return v.l.handleLoginPluginResponse(res)
+}
+
+// ClearOnAllMessagesHandled calls loginInboundConn.clearOnAllMessagesHandled.
+func (v *VerifC13LoginInbound) ClearOnAllMessagesHandled() { v.l.clearOnAllMessagesHandled() }
+
+// Cleanup calls loginInboundConn.cleanup.
+func (v *VerifC13LoginInbound) Cleanup() { v.l.cleanup() }
+
+type verifC13Config struct{ cfg *config.Config }
+
+func (c verifC13Config) config() *config.Config { return c.cfg }
+
+// VerifC13ForgeBackend is a real backendLoginSessionHandler wired to a player whose
+// forgeLoginRelay is active, the state completeLoginProtocolPhaseAndInitialize leaves
+// behind for a Modern Forge client below 1.20.2.
+type VerifC13ForgeBackend struct {
+	h      netmc.SessionHandler
+	player *connectedPlayer
+}
+
+// VerifC13NewForgeBackend builds the player (over clientConn), its server connection (over
+// backendConn), the Modern Forge login relay on login and the backend login session handler.
+func VerifC13NewForgeBackend(login *VerifC13LoginInbound, clientConn, backendConn netmc.MinecraftConn, mgr event.Manager, cfg *config.Config) *VerifC13ForgeBackend {
+	player := &connectedPlayer{MinecraftConn: clientConn, log: logr.Discard()}
+	sc := &serverConnection{player: player, log: logr.Discard()}
+	sc.connection = backendConn
+	player.forgeLoginRelay = newModernForgeLoginRelay(login.l, player, nil)
+	deps := &sessionHandlerDeps{eventMgr: mgr, configProvider: verifC13Config{cfg}}
+	return &VerifC13ForgeBackend{h: newBackendLoginSessionHandler(sc, nil, deps), player: player}
+}
+
+// HandleBackendPacket feeds a packet read from the backend to the session handler.
+func (f *VerifC13ForgeBackend) HandleBackendPacket(p proto.Packet) {
+	f.h.HandlePacket(&proto.PacketContext{Direction: proto.ClientBound, Protocol: f.player.Protocol(), Packet: p})
+}
+
+// Exchanges reports how many FML exchanges the relay has cached.
+func (f *VerifC13ForgeBackend) Exchanges() int {
+	f.player.mu.RLock()
+	r := f.player.forgeLoginRelay
+	f.player.mu.RUnlock()
+	if r == nil {
+		return 0
+	}
+	return len(r.exchanges())
+}
